@@ -7,8 +7,18 @@ use crate::error::{Result, ZiporaError};
 use std::alloc::{Layout, alloc, dealloc};
 use std::collections::VecDeque;
 use std::ptr::NonNull;
+#[cfg(not(zipora_verif))]
 use std::sync::atomic::{AtomicU64, Ordering};
+#[cfg(zipora_verif)]
+use crate::verif::sync::atomic::AtomicU64;
+#[cfg(zipora_verif)]
+use std::sync::atomic::Ordering;
+#[cfg(not(zipora_verif))]
 use std::sync::{Arc, Mutex, RwLock};
+#[cfg(zipora_verif)]
+use std::sync::Arc;
+#[cfg(zipora_verif)]
+use crate::verif::sync::{Mutex, RwLock};
 
 /// Configuration for a memory pool
 #[derive(Debug, Clone)]
